@@ -18,6 +18,11 @@ let int_of_n = function N0 -> 0 | Npos p -> int_of_pos p
 let int_of_z = function Z0 -> 0 | Zpos p -> int_of_pos p | Zneg p -> - (int_of_pos p)
 let rec int_of_nat = function O -> 0 | S k -> 1 + int_of_nat k
 
+let n10 = n_of_int 10
+let n_of_dec (s : string) : n =
+  let acc = ref N0 in
+  String.iter (fun c -> acc := N.add (N.mul !acc n10) (n_of_int (Char.code c - 48))) s; !acc
+
 let name_of_string (s : string) : name =
   if s = "-" then [] else List.map (fun x -> n_of_int (int_of_string x)) (String.split_on_char '.' s)
 let string_of_name (n : name) : string =
@@ -221,6 +226,10 @@ let () =
       | ["op"; "cap"; c] ->
           incr nops;
           ignore (apply (OCap (z_of_int (int_of_string c)))); spec := c_setcap !spec (z_of_int (int_of_string c)); last_op := "cap " ^ c
+      | ["op"; "mcap"; u] ->
+          incr nops;
+          ignore (apply (OMgmtCap (n_of_dec u))); spec := c_mgmtcap !spec (n_of_dec u); last_op := "mcap " ^ u;
+          stat (if String.length u > 18 then "mgmt_capacity_out_of_range" else "mgmt_capacity")
       | ["op"; "ins"; n; w; f] ->
           incr nops;
           let nn = name_of_string n and w' = n_of_int (int_of_string w) and f' = ms_ns (opt_n f) in
@@ -237,6 +246,13 @@ let () =
                        (match c with [] -> "miss" | [_] -> "hit" | _ -> "hit_several_admissible"))
            | _ -> ());
           last_op := Printf.sprintf "find %s cbp=%s mbf=%s" n cbp mbf
+      | ["obs"; "capacity"; c] ->
+          (* the capacity in force after a cs/config management command (table.CsCapacity()) against what the command asked for *)
+          let want = (!spec).c_cap in
+          let got = (if String.length c > 18 then 4000000000000000000 else int_of_string c) in
+          let want_i = (if N.ltb want (n_of_int 1000000000) then int_of_n want else -1) in
+          if (want_i >= 0 && got <> want_i) || (want_i < 0 && got < 1000000000) then
+            oracle "C07" "mgmt-capacity-not-applied" (Printf.sprintf "after [%s] through cs/config the capacity in force is %d" !last_op got)
       | "obs" :: "find" :: rest ->
           (match !pending_find with
            | None -> Printf.printf "BADLINE %d obs find without op\n" !lineno
